@@ -2,6 +2,7 @@ package main
 
 import (
 	"fmt"
+	"regexp"
 	"go/constant"
 	"go/types"
 	"math/big"
@@ -150,8 +151,17 @@ func (c *Ctx) under(t types.Type) types.Type {
 	return types.Unalias(t).Underlying()
 }
 
+var aliasWordRe = regexp.MustCompile(`\b(byte|rune)\b`)
+
+// typeKey is a canonical name of a type (byte and uint8, rune and int32 are the same type).
 func typeKey(t types.Type) string {
-	return types.TypeString(t, func(p *types.Package) string { return shortPkg(p.Path()) })
+	s := types.TypeString(t, func(p *types.Package) string { return shortPkg(p.Path()) })
+	return aliasWordRe.ReplaceAllStringFunc(s, func(w string) string {
+		if w == "byte" {
+			return "uint8"
+		}
+		return "int32"
+	})
 }
 
 func (c *Ctx) sortOf(t types.Type) string {
